@@ -116,11 +116,24 @@ def sites():
 
 
 def sh(cmd, cwd=None, timeout=None, env=None):
+    """Runs cmd in its own process group and kills the WHOLE group on timeout (a mutant can make a test
+    binary spin forever: killing only `cargo test` would leave it running)."""
+    import signal
+    p = subprocess.Popen(cmd, cwd=cwd, env=env, stdout=subprocess.PIPE, stderr=subprocess.STDOUT, text=True,
+                         start_new_session=True)
     try:
-        p = subprocess.run(cmd, cwd=cwd, timeout=timeout, env=env, stdout=subprocess.PIPE, stderr=subprocess.STDOUT, text=True)
-        return p.returncode, p.stdout
-    except subprocess.TimeoutExpired as e:
-        return -999, (e.stdout or b"").decode("utf-8", "replace") if isinstance(e.stdout, bytes) else (e.stdout or "")
+        out, _ = p.communicate(timeout=timeout)
+        return p.returncode, out
+    except subprocess.TimeoutExpired:
+        try:
+            os.killpg(p.pid, signal.SIGKILL)
+        except ProcessLookupError:
+            pass
+        try:
+            out, _ = p.communicate(timeout=10)
+        except Exception:
+            out = ""
+        return -999, out or ""
 
 
 def run(worker, nworkers, limit=None):
